@@ -30,7 +30,7 @@ func H_C25_sampler() {
 	verifrt.FillInts(&s.agg.Stats, "agg", 0, 1000, "")
 	produced := s.agg.Stats
 	var producedFiles []string
-	n := verifrt.Concretize(verifrt.IntRange("events", 0, verifrt.Param("events", 2, 3)))
+	n := verifrt.Concretize(verifrt.IntRange("events", 0, verifrt.Param("events", 2, 2)))
 	fileID := 0
 	for i := 0; i < n; i++ {
 		ev := &zoekt.SearchResult{}
